@@ -211,6 +211,9 @@ func gen(t *rapid.T) Case {
 	}
 	c := Case{Kind: "string", Table: rapid.SampledFrom(ids).Draw(t, "table")}
 	c.Seq = vk.DrawSeq(t, "seq", "ACGT", 1, 3000)
+	if rapid.IntRange(0, 5).Draw(t, "gene_shaped") == 0 { // start codon, whole codons, stop codon - as real coding sequences are
+		c.Seq = vk.SeqSpec{Lit: strings.ToUpper(ctab.DrawGene(t, "gene", c.Table, 999))}
+	}
 	// splice in codons the table reassigns so that the interesting cells are hit often
 	g, _ := ref.GeneticCodeByID(c.Table)
 	if len(g.Diff) > 0 && rapid.Bool().Draw(t, "splice") {
